@@ -5,7 +5,8 @@ import random
 from vt import core, tlaval
 from vt import profile_util as pu
 
-NASTY = [r'"\\\\"', r'"dir\\\\\\"', r'"a\\\"b\\\\"', '"a\\"b"', '"x;y{z}#w"', '"\\\\"', '"line\\nbreak"', '"\\x41\\u0042"', '"it\'s"', '""', '"tab\\t"', '"/a /b,/c"', '"%windir%\\\\sys"']
+LONG = '"Mozilla/5.0 (Windows NT 10.0; Win64; x64) AppleWebKit/537.36 (KHTML, like Gecko) Chrome/120.0.0.0 Safari/537.36 Edg/120.0.0.0 trailing words here"'
+NASTY = [LONG, '"a b"', '"a  b"', '"a\tb"', r'"\\\\"', r'"dir\\\\\\"', r'"a\\\"b\\\\"', '"a\\"b"', '"x;y{z}#w"', '"\\\\"', '"line\\nbreak"', '"\\x41\\u0042"', '"it\'s"', '""', '"tab\\t"', '"/a /b,/c"', '"%windir%\\\\sys"']
 
 
 def model_cfg(q):
@@ -51,6 +52,11 @@ def roundtrip(toks):
     return {"kind": "ok", "text": t[1]}
 
 
+def roundtrip_pair(job):
+    _tag, a, b = job
+    return roundtrip(a), roundtrip(b)
+
+
 def run(ctx):
     q = ctx.quick
     ctx.trusted += ["TLC", "ProfileProd.tla (frozen production table of the documented language)", "harness tokenizer (STRING as in StringLitR.LexEnd)"]
@@ -66,6 +72,13 @@ def run(ctx):
     # arbitrary literals in place of the generator's "vN"
     for s in rng.sample(chosen, min(len(chosen), 150 if q else 1500)):
         jobs.append(tuple(rng.choice(NASTY) if (t.startswith('"v') and t != '"default"') else t for t in s["toks"]))
+    # state carried between parses: the same profile with literals that differ only in inner whitespace, parsed one after the other
+    pair_jobs = []
+    for s in rng.sample(chosen, min(len(chosen), 40 if q else 400)):
+        if any(t.startswith('"v') for t in s["toks"]):
+            a = tuple('"x y"' if t.startswith('"v') and t != '"default"' else t for t in s["toks"])
+            b = tuple('"x  y"' if t.startswith('"v') and t != '"default"' else t for t in s["toks"])
+            pair_jobs.append(("PAIR", a, b))
     # repeated and empty blocks, arbitrary orders: concatenations of complete profiles
     for _ in range(150 if q else 2000):
         k = rng.choice([2, 2, 3, 5])
@@ -75,6 +88,13 @@ def run(ctx):
         jobs.append(tuple(t for p in parts for t in p))
     with mp.get_context("fork").Pool(14) as pool:
         results = pool.map(roundtrip, jobs, chunksize=16)
+        pair_results = pool.map(roundtrip_pair, pair_jobs, chunksize=4)
+    for (_p, a, b), (ra, rb) in zip(pair_jobs, pair_results):
+        for toks, res in ((a, ra), (b, rb)):
+            ctx.evaluations += 1
+            if res["kind"] != "ok":
+                ctx.violation("profile text round trip depends on what was parsed before", {"op": "C2Profile.from_text", "failed": "history_" + res["kind"], "token": None},
+                              {"first": list(a)[:40], "second": list(b)[:40], **{k: v for k, v in res.items() if k != "text"}})
     prods = set()
     regenerated = []
     for toks, res in zip(jobs, results):
